@@ -392,6 +392,12 @@ class ApiGen:
         sc = calgen.Scenario(ctype, rr, cc, F, r)
         sc.sufficient_recipe(extras=1)
         sc.choose_entries()
+        if r.random() < 0.3:
+            # some multi-port standards with only part of their S matrix
+            # given (legal; the set may no longer be sufficient)
+            for st in sc.stds:
+                if st.n >= 2 and r.random() < 0.5:
+                    sc.make_partial(st)
         if r.random() < 0.12:
             # invalid allocation
             bad = [("NOTYPE", rr, cc, F), (ctype, 0, cc, F), (ctype, rr, -1, F),
